@@ -446,6 +446,38 @@ def shapes(ctx: Ctx) -> None:
                 tv = norm(g.target)
                 ok = norm(n.key) == f"{tv}.name" and norm(n.value).endswith(f"[{tv}.name]") and "fields" in norm(g.iter)
         ctx.ob("C14.R3", fd, "from_dict takes every field by its own name", ok, "expected {f.name: data[f.name] for f in fields(cls) ...}")
+        # the filter may depend on key PRESENCE and on ignore_missing only - never on the stored value
+        # (None, 0, "", [] are legitimate model values and must survive from_dict(to_dict(x)))
+        from ..guard import eval_bool_expr
+        import itertools as _it
+
+        for n in own_nodes(fd.node):
+            if isinstance(n, ast.DictComp) and len(n.generators) == 1:
+                g = n.generators[0]
+                tv = norm(g.target)
+                dparam = [a for a in fd.param_names() if a not in ("cls", "self")][0]
+
+                def cl(node, tv=tv, dparam=dparam):
+                    t = node.ast
+                    if isinstance(t, ast.Compare) and len(t.ops) == 1 and norm(t.left) == f"{tv}.name" and norm(t.comparators[0]) == dparam:
+                        if isinstance(t.ops[0], ast.In):
+                            return ("present", True)
+                        if isinstance(t.ops[0], ast.NotIn):
+                            return ("present", False)
+                    if isinstance(t, ast.Name) and t.id == "ignore_missing":
+                        return ("ignore_missing", True)
+                    return None
+
+                rows = []
+                okf = True
+                for present, ign in _it.product([False, True], repeat=2):
+                    asg = {"present": present, "ignore_missing": ign}
+                    vals = [eval_bool_expr(i, asg, cl) for i in g.ifs]
+                    v = None if any(x is None for x in vals) else all(vals)
+                    want = present or not ign
+                    rows.append(f"present={present},ignore_missing={ign}->{v}")
+                    okf = okf and (v is want)
+                ctx.ob("C14.R3", fd, "from_dict keeps a field iff its key is present (or missing keys are not ignored)", okf, "; ".join(rows) + " (None = the filter depends on the stored value or on something else: a stored None/0/'' would be replaced by the default)")
     td = mb.methods.get("to_dict")
     if td is not None:
         ok = any(isinstance(n, ast.Return) and isinstance(n.value, ast.Call) and norm(n.value.func).endswith("asdict") and [norm(a) for a in n.value.args] == ["self"] for n in own_nodes(td.node))
